@@ -38,7 +38,9 @@ Lemma exact_scalar t : is_scalar t -> exact t.
 Proof.
   intros [ -> | [ -> | [ -> | -> ]]] b v r; cbn [read scalar_size];
     (match goal with |- context [if ?a <? ?c then _ else _] => destruct (N.ltb_spec a c) as [|Hl] end; [discriminate|]);
-    intros E; inversion E; subst v r; clear E; rewrite len_skipn; cbn [wire_size mem_size scalar_size]; lia.
+    match goal with |- Ok (_, skipn ?k b) = _ -> _ =>
+      pose proof (len_skipn b k) as Hs; set (s := skipn k b) in *; clearbody s end;
+    intros [= <- <-]; cbn [wire_size mem_size scalar_size]; lia.
 Qed.
 
 Lemma read_slice_exact e : exact e -> forall fuel b v r, read_slice e fuel b = Ok (v, r) ->
@@ -149,21 +151,23 @@ Qed.
 
 Definition blocks_wire (bs : list XRBlock) : N := fold_right (fun b acc => blk_wire_size b + acc) 0 bs.
 
+Lemma if_ltb_le a c : (if a <? c then a else c) <= a.
+Proof. destruct (N.ltb_spec a c); lia. Qed.
 Lemma xr_blocks_loop_alloc : forall fuel buf bs, xr_blocks_loop fuel buf = Ok bs -> blocks_wire bs <= len buf.
 Proof.
   induction fuel as [|f IH]; intros buf bs; [discriminate|]. cbn [xr_blocks_loop].
   destruct buf as [|x0 buf'].
   { intros E; inversion E; subst. cbn. lia. }
-  set (buf := x0 :: buf') in *.
+  cbv iota. set (buf := x0 :: buf') in *. clearbody buf.
   destruct (read ly_XRHeader buf) as [[hv r0]| | |]; cbn [bind]; try discriminate.
   set (size := if _ <? _ then _ else _).
   assert (Hsize : size <= len buf).
-  { unfold size. match goal with |- context [if ?a <? ?c then _ else _] => destruct (N.ltb_spec a c) end; lia. }
-  clearbody size.
+  { apply if_ltb_le. }
+  clearbody size. set (k := kind_of_block_type _). clearbody k.
   destruct (read (layout_of _) (firstn (N.to_nat size) buf)) as [[v r1]| | |] eqn:Ev; cbn [bind]; try discriminate.
-  apply exact_layout in Ev. rewrite len_firstn in Ev.
+  apply exact_layout in Ev. rewrite len_firstn, N2Nat.id, N.min_l in Ev by exact Hsize.
   destruct (xr_blocks_loop f (skipn (N.to_nat size) buf)) as [r| | |] eqn:El; cbn [bind]; try discriminate.
-  apply IH in El. rewrite len_skipn in El.
+  apply IH in El. rewrite len_skipn, N2Nat.id in El.
   intros E; inversion E; subst bs; clear E. unfold blocks_wire. cbn [fold_right]. fold (blocks_wire r).
   rewrite unpack_block_wire. lia.
 Qed.
@@ -186,3 +190,113 @@ Proof.
   apply xr_blocks_loop_alloc in El.
   intros E; inversion E; subst x; clear E. cbn [xr_blocks]. lia.
 Qed.
+
+(* ---- A.4 the element count of a decoded packet ---- *)
+
+(* list elements and octets of the variable-size parts a packet value holds (the fixed-size struct itself is
+   not counted): report blocks 24 octets each, SDES chunks 5 / items 2 / text octets, 32-bit sources 4, ...;
+   for ExtendedReport the wire size of every block (header included), which dominates the number of leaves
+   of the block value.  RawPacket aliases its input: nothing is allocated. *)
+Fixpoint elems (p : packet) : N :=
+  match p with
+  | PSR x => 24 * nlen (sr_reports x) + len (sr_ext x)
+  | PRR x => 24 * nlen (rcv_reports x) + len (rcv_ext x)
+  | PSDES x => 5 * nlen (sd_chunks x) + 2 * chunks_items (sd_chunks x) + chunks_text (sd_chunks x)
+  | PBYE x => 4 * nlen (bye_sources x) + len (bye_reason x)
+  | PAPP x => len (app_data x)
+  | PNACK x => 4 * nlen (nack_pairs x)
+  | PSLI x => 4 * nlen (sli_entries x)
+  | PFIR x => 8 * nlen (fir_entries x)
+  | PREMB x => 4 * nlen (remb_ssrcs x)
+  | PCCFB x => 8 * nlen (cc_blocks x) + 2 * metric_count (cc_blocks x)
+  | PTWCC x => 2 * nlen (tw_chunks x) + nlen (tw_deltas x)
+  | PXR x => blocks_wire (xr_blocks x)
+  | PPLI _ | PRRR _ => 0
+  | PRaw _ => 0
+  | PCompound l => fold_right (fun q acc => elems q + acc) 0 l
+  end.
+
+(* every type except TransportLayerCC: bounded by the octets handed to the decoder *)
+Lemma decode_as_alloc_len t f p : t <> TTWCC -> decode_as t f = Ok p -> elems p <= len f.
+Proof.
+  intros Ht. destruct t; cbn [decode_as]; try congruence;
+    match goal with
+    | |- res_map _ ?X = _ -> _ => destruct X as [x| | |] eqn:E; cbn [res_map]; try discriminate
+    | |- _ => idtac
+    end; try (intros [= <-]; cbn [elems]).
+  - apply SR_unmarshal_alloc_N in E. lia.
+  - apply RR_unmarshal_alloc_N in E. lia.
+  - apply SDES_unmarshal_alloc in E. lia.
+  - apply BYE_unmarshal_alloc_N in E. lia.
+  - apply APP_unmarshal_alloc_N in E. lia.
+  - apply NACK_unmarshal_alloc in E. lia.
+  - lia.
+  - apply CCFB_unmarshal_alloc in E. lia.
+  - lia.
+  - apply SLI_unmarshal_alloc in E. lia.
+  - apply REMB_unmarshal_alloc in E. lia.
+  - apply FIR_unmarshal_alloc in E. lia.
+  - apply XR_unmarshal_alloc in E. lia.
+  - lia.
+  - discriminate.
+Qed.
+
+(* TransportLayerCC: the chunks fit the input, the deltas exceed the 16-bit status count by at most 13 *)
+Lemma decode_as_alloc t f p : decode_as t f = Ok p -> elems p <= 65535 + 13 + len f.
+Proof.
+  destruct t; try (intros H; apply decode_as_alloc_len in H; [lia|discriminate]).
+  cbn [decode_as]. destruct (TWCC_unmarshal f) as [x| | |] eqn:E; cbn [res_map]; try discriminate.
+  intros [= <-]. cbn [elems]. apply TWCC_unmarshal_alloc_bound_sharp in E. unfold nlen. lia.
+Qed.
+
+Theorem decode_frame_alloc_sharp f p : decode_frame f = Ok p -> elems p <= 65535 + 13 + len f.
+Proof.
+  unfold decode_frame. destruct (Header_unmarshal f) as [h| | |]; cbn [bind]; try discriminate.
+  apply decode_as_alloc.
+Qed.
+Theorem decode_frame_alloc f p : decode_frame f = Ok p -> elems p <= 65535 + 13 + 2 * len f.
+Proof. intros H. apply decode_frame_alloc_sharp in H. lia. Qed.
+
+(* a frame that is not dispatched to TransportLayerCC allocates no more than its own length *)
+Theorem decode_frame_alloc_len f p : decode_frame f = Ok p -> tag_of_packet p <> TTWCC -> elems p <= len f.
+Proof.
+  unfold decode_frame. destruct (Header_unmarshal f) as [h| | |]; cbn [bind]; try discriminate.
+  intros H Ht. pose proof (decode_as_tag _ _ _ H) as Et. rewrite Et in Ht.
+  eapply decode_as_alloc_len; eassumption.
+Qed.
+
+(* ---- A.5 the datagram ---- *)
+
+Definition elems_list (ps : list packet) : N := fold_right (fun p acc => elems p + acc) 0 ps.
+
+Lemma len_concat_cons (f : bytes) fs : len (List.concat (f :: fs)) = len f + len (List.concat fs).
+Proof. cbn [List.concat]. apply len_app. Qed.
+
+Lemma mapM_decode_alloc : forall fs ps, Forall framed16 fs -> mapM decode_frame fs = Ok ps ->
+  elems_list ps <= (65535 + 13) * nlen ps + len (List.concat fs) /\ 4 * nlen ps <= len (List.concat fs).
+Proof.
+  induction fs as [|f fs IH]; intros ps Hf; cbn [mapM].
+  { intros [= <-]. cbn. lia. }
+  inversion Hf as [|? ? Hf1 Hf2]; subst.
+  destruct (decode_frame f) as [p| | |] eqn:Ep; cbn [bind]; try discriminate.
+  destruct (mapM decode_frame fs) as [qs| | |] eqn:Eq; cbn [bind]; try discriminate.
+  intros [= <-]. destruct (IH qs Hf2 eq_refl) as [I1 I2].
+  apply decode_frame_alloc_sharp in Ep. apply framed16_len in Hf1.
+  rewrite len_concat_cons, nlen_cons. unfold elems_list in *. cbn [fold_right]. lia.
+Qed.
+
+Theorem Unmarshal_alloc_sharp b ps : Unmarshal b = Ok ps ->
+  elems_list ps <= (65535 + 13) * nlen ps + len b /\ 4 * nlen ps <= len b.
+Proof.
+  intros H. apply Unmarshal_ok_split in H as (fs & -> & Hf & _ & Hm). apply mapM_decode_alloc; assumption.
+Qed.
+
+Theorem Unmarshal_alloc b ps : Unmarshal b = Ok ps ->
+  fold_right (fun p acc => elems p + acc) 0 ps <= (65535 + 13) * N.of_nat (List.length ps) + 2 * len b /\
+  4 * N.of_nat (List.length ps) <= len b.
+Proof. intros H. apply Unmarshal_alloc_sharp in H. unfold elems_list, nlen in H. lia. Qed.
+
+(* consequence: the whole decoded datagram holds at most 16388 * len b elements *)
+Corollary Unmarshal_alloc_linear b ps : Unmarshal b = Ok ps ->
+  fold_right (fun p acc => elems p + acc) 0 ps <= 16388 * len b.
+Proof. intros H. apply Unmarshal_alloc_sharp in H. unfold elems_list, nlen in H. lia. Qed.
